@@ -64,9 +64,9 @@ def run(prog: Program, rep: Report, tier: str) -> None:
             rep.undecided("R4.1", f"normal-form path {k}", where, f"analyser met a construct outside its vocabulary: {r}")
             continue
         same = o.value == exp
-        rep.check(same, "R4.1", f"normal-form path {k}", where,
+        rep.check_term(same, o.value, "R4.1", f"normal-form path {k}", where,
                   f"signer computes {T.show(o.value)[:700]} but the protocol signature is {T.show(exp)[:500]}",
-                  "derived normal form is syntactically identical to the protocol term", derived=T.show(o.value)[:900])
+                  "derived normal form is syntactically identical to the protocol term", derived_text=T.show(o.value)[:900])
     # R4.2
     for k, o in enumerate(rets):
         v = T.to_seq(o.value)
